@@ -111,6 +111,13 @@ def body_for(kind, op, k):
         d = {'error': 'IllegalArgumentException',
              'errorMessage': 'msg é %d' % k, 'cause': 'UserMigrated'}
         return json.dumps(d).encode(), 'application/json', d
+    if kind in ('null_message', 'null_error'):
+        # still an error object: both keys are present (JSON null values)
+        d = {'error': 'ForbiddenOperationException' if kind == 'null_message'
+             else None,
+             'errorMessage': None if kind == 'null_message' else 'msg %d' % k,
+             'cause': 'UserMigratedException'}
+        return json.dumps(d).encode(), 'application/json', d
     raw = {'partial_error': b'{"error": "X"}',
            'partial_msg': b'{"errorMessage": "Y"}', 'null': b'null',
            'number': b'42', 'string': b'"error errorMessage"',
@@ -300,9 +307,10 @@ def _history_case(ctx, case):
                     if (exc.yggdrasil_error, exc.yggdrasil_message,
                         exc.yggdrasil_cause) != (
                             err['error'], err['errorMessage'],
-                            err.get('cause')) or \
-                            err['error'] not in str(exc) or \
-                            err['errorMessage'] not in str(exc):
+                            err.get('cause')) or any(
+                                err[k_] is not None and
+                                err[k_] not in str(exc)
+                                for k_ in ('error', 'errorMessage')):
                         ctx.fail('history', 'Y4-error-fields', sub,
                                  (exc.yggdrasil_error, exc.yggdrasil_message,
                                   exc.yggdrasil_cause, str(exc)), err)
@@ -375,7 +383,8 @@ COMPONENTS = {'history': history_case}
 def op_strategy():
     err_body = st.sampled_from(['full', 'full_cause', 'partial_error',
                                 'partial_msg', 'null', 'number', 'string',
-                                'array', 'text', 'empty', 'true'])
+                                'array', 'text', 'empty', 'true',
+                                'null_message', 'null_error'])
     err = st.tuples(st.sampled_from(ERR_STATUS), err_body)
     user = st.sampled_from(['alice@example.org', 'bob', 'é'])
     pw = st.sampled_from(['hunter2', ''])
@@ -400,7 +409,8 @@ def t_subsets(ctx, lo, hi):
     import itertools
     subsets = list(itertools.product([False, True], repeat=5))[lo:hi]
     replies = [(200, 'valid'), (204, 'empty'), (403, 'full'),
-               (500, 'null'), (400, 'text'), (429, 'partial_error')]
+               (500, 'null'), (400, 'text'), (429, 'partial_error'),
+               (403, 'null_message'), (503, 'null_error')]
     for init in subsets:
         for rep in replies:
             for op in (('authenticate', 'u', 'p', False),
@@ -418,7 +428,7 @@ def t_subsets(ctx, lo, hi):
                                    'ops': [op + rep]})
     ctx.sample({'initial': [True, True, False, True, False],
                 'ops': [('refresh', 403, 'full')]}, 'subsets')
-    ctx.exhaustive_done('all 32 initial field subsets x 7 operations x 6 '
+    ctx.exhaustive_done('all 32 initial field subsets x 7 operations x 8 '
                         'reply classes (single step)')
 
 
